@@ -104,11 +104,15 @@ func (s *streamHTTP) writeMsg(c Codec, b []byte, contentType string) (int, error
 	return count, s.opts.writeAll(s.w, b)
 }
 
-func (s *streamHTTP) SendMsg(m interface{}) error {
+func (s *streamHTTP) SendMsg(m interface{}) (err error) {
 	reply := m.(proto.Message)
 
 	if fRsp, ok := s.w.(http.Flusher); ok {
-		defer fRsp.Flush()
+		defer func() {
+			if err == nil { // a failed send must not commit a 200 header
+				fRsp.Flush()
+			}
+		}()
 	}
 
 	cur := reply.ProtoReflect()
